@@ -127,7 +127,7 @@ Example C42_names_distinct_nonvacuous :
 Proof. vm_compute. reflexivity. Qed.
 
 (* "every method emitted for each message is in the reserved set": refuted
-   (finding F15) — ProtoReflect is not; a field proto_reflect keeps the Go name
+   (finding FH1) — ProtoReflect is not; a field proto_reflect keeps the Go name
    ProtoReflect next to the method ProtoReflect() *)
 Theorem C42_base_methods_reserved_refuted :
   exists b fs, In b base_methods /\ ~ In b reserved /\ In b (fst (message_names fs [])).
@@ -145,7 +145,7 @@ Theorem C42_wrapper_not_nested :
   forall msg taken g, ~ In (wrapper_name msg taken g) taken.
 Proof. exact wrapper_not_taken. Qed.
 Print Assumptions C42_wrapper_not_nested.
-(* ... but "wrapper types of distinct Go names are distinct": refuted (finding F16):
+(* ... but "wrapper types of distinct Go names are distinct": refuted (finding FH2):
    message M { message Foo {} oneof o { int32 foo = 1; int32 foo_ = 2; } } *)
 Theorem C42_wrappers_distinct_refuted :
   exists msg taken g1 g2, g1 <> g2 /\ wrapper_name msg taken g1 = wrapper_name msg taken g2.
@@ -158,7 +158,7 @@ Print Assumptions C42_wrappers_distinct_refuted.
 (* ---------- opaque API (protogen_opaque.go) ----------
    "the accessor methods Get/Set/Has/Clear<camelCase> and Has/Clear/Which<oneof> of a
    message are pairwise distinct": refuted twice.
-   F18: _foo and X_foo both camel-case to XFoo and are renamed XFoo_1, XFoo_2; the
+   FH4: _foo and X_foo both camel-case to XFoo and are renamed XFoo_1, XFoo_2; the
    field x_foo_2 is XFoo_2 already. *)
 Theorem C42_opaque_suffix_collision_refuted :
   exists fs, ~ NoDup (opaque_methods fs [] []).
@@ -169,7 +169,7 @@ Proof.
   intros H. apply nodupb_nodup in H. vm_compute in H. discriminate.
 Qed.
 Print Assumptions C42_opaque_suffix_collision_refuted.
-(* F19: two oneofs x_x and XX (the open API names them XX and XX_; the opaque API
+(* FH5: two oneofs x_x and XX (the open API names them XX and XX_; the opaque API
    uses the camel-case name and resolves collisions between fields only) *)
 Theorem C42_opaque_oneof_collision_refuted :
   exists fs onames real, ~ NoDup (opaque_methods fs onames real).
